@@ -116,7 +116,7 @@ def load_overlay(path, variants=frozenset()):
             flush()
             h = ln[4:].strip()
             m = re.fullmatch(r'(before|after)\s+<<(.*)>>', h)
-            m2 = re.fullmatch(r'loop\s+(\d+)\s+(pre|spec|post)', h)
+            m2 = re.fullmatch(r'loop\s+(\d+)\s+(outer|pre|spec|post)', h)
             if m:
                 sec = (m.group(1), m.group(2), no)
             elif m2:
@@ -249,6 +249,10 @@ def _desugar(body, spec, ctr, dropped, used):
             pre = spec.sections.get(('loop', k, 'pre')) if spec else None
             lsp = spec.sections.get(('loop', k, 'spec')) if spec else None
             lpost = spec.sections.get(('loop', k, 'post')) if spec else None
+            louter = spec.sections.get(('loop', k, 'outer')) if spec else None
+            if louter is not None:
+                used.add(('loop', k, 'outer'))
+                out += splice_toks(louter)
             if lpost is not None:
                 used.add(('loop', k, 'post'))
             if pre is not None:
